@@ -119,6 +119,8 @@ class Runner:
         self.problems = []         # oracle verdicts: dicts {prop, what, step}
         self.max_live = max_live
         self.stats = {}
+        self.reg_objs = []         # register handle -> engine object returned by a successful newreg (in operation order)
+        self.coq_ops = {}          # step index -> Coq text of an operation whose model arguments are resolved at run time
 
     def live(self):
         return [self.net.hid[id(q)] for node in self.net.nodes for q in node.virtQubits]
@@ -132,6 +134,35 @@ class Runner:
 
     def stat(self, k):
         self.stats[k] = self.stats.get(k, 0) + 1
+
+    # -- client-made registers ------------------------------------------------------------------------------
+    def reg_name(self, reg):
+        """(owner node index, register number): the model's name of a register object"""
+        return (N.node_index(self.net, reg.simNode), reg.num)
+
+    def reg_listed(self, reg):
+        """is the register object still one of its node's registers? (a register disappears when its last qubit is measured out,
+        when another register absorbs it, or when another node pulls it)"""
+        owner = self.net.nodes[N.node_index(self.net, reg.simNode)]
+        return owner.registers.get(reg.num) is reg
+
+    def reg_of(self, op):
+        """register object an ("newinreg", node, reg handle) / ("newinregq", node, qubit handle) operation names, or None"""
+        if op[0] == "newinreg":
+            return self.reg_objs[op[2]] if 0 <= op[2] < len(self.reg_objs) else None
+        q = self.net.objs.get(op[2])
+        if q is None or op[2] not in self.live():
+            return None
+        sq = N.resolve(self.net, q.simQubit)
+        return None if sq is None else sq.register
+
+    def can_do(self, op):
+        """new_qubit_inreg is only driven with a register object its node still lists: with a delisted object the code has no
+        defined behaviour (it silently creates a qubit in an engine outside the node's register table)"""
+        if op[0] in ("newinreg", "newinregq"):
+            reg = self.reg_of(op)
+            return reg is not None and self.reg_listed(reg)
+        return True
 
     def placement_case(self, h1, h2):
         q1, q2 = self.net.objs[h1], self.net.objs[h2]
@@ -182,6 +213,19 @@ class Runner:
             stale = op[1] not in live_before
             self.env.coins[:] = [1 if op[3] else 0]
             d = q.remote_measure(inplace=op[2])
+        elif kind == "newreg":
+            # synchronous method: an exception is the refusal
+            from twisted.internet import defer
+            d = defer.maybeDeferred(net.nodes[op[1]].remote_add_register, maxQubits=op[2])
+        elif kind in ("newinreg", "newinregq"):
+            reg = self.reg_of(op)
+            if reg is None or not self.reg_listed(reg):
+                raise ValueError("new_qubit_inreg with a register object its node no longer lists is not driven: %r" % (op,))
+            owner, k = self.reg_name(reg)
+            self.coq_ops[len(self.steps)] = "ONewInReg %d %d %d" % (op[1], owner, k)
+            reg_before = (owner, k, reg.activeQubits, reg.maxQubits)
+            from twisted.internet import defer
+            d = defer.maybeDeferred(net.nodes[op[1]].remote_new_qubit_inreg, reg)
         else:
             raise ValueError(op)
         if self.pb:
@@ -202,8 +246,11 @@ class Runner:
         elif status == "err":
             out = "Err " + KIND.get(type(val).__name__, "KCrash")
         else:
-            if kind == "new":
+            if kind in ("new", "newinreg", "newinregq"):
                 out = "Ok %d" % val.num
+            elif kind == "newreg":
+                out = "Ok %d" % val.num
+                self.reg_objs.append(val)
             elif kind == "g1":
                 out = "Ignored" if stale else "OkNone"      # remote_apply_* returns None either way
             elif kind == "g2":
@@ -220,6 +267,9 @@ class Runner:
             self.stat("stale_op")
         if out.startswith("Err"):
             self.stat("refused_" + out.split()[1])
+            if kind in ("newreg", "newinreg", "newinregq"):
+                self.stat("refused_%s_%s" % (kind, out.split()[1]))
+        self.reg_before = reg_before if kind in ("newinreg", "newinregq") else None
         self.judge(op, kind, status, val, out, stale, before, after, live_before, pop_before, new_handles)
         return out
 
@@ -241,7 +291,7 @@ class Runner:
         delta = sum(pop_after) - sum(pop_before)
         ok_result = status == "ok" and not out.startswith("Ignored")
         want = 0
-        if ok_result and kind == "new":
+        if ok_result and kind in ("new", "newinreg", "newinregq"):
             want = 1
         if ok_result and kind == "meas" and not op[2]:
             want = -1
@@ -282,6 +332,50 @@ class Runner:
                 P.append({"prop": "C07", "what": "creation refused below capacity: %s" % type(val).__name__, "step": step})
             if status == "err" and not room and type(val).__name__ != "noQubitError":
                 P.append({"prop": "C07", "what": "creation at qubit capacity refused with %s" % type(val).__name__, "step": step})
+        if kind == "newreg":
+            # `creating more registers than the configured maximum is refused` -- and nothing else is
+            i = op[1]
+            regroom = before[i]["numRegs"] < net.nodes[i].maxRegs
+            if status == "ok":
+                self.stat("newreg_ok_cap%d" % min(op[2], 4))
+                if not regroom:
+                    P.append({"prop": "C07", "what": "register creation succeeded at the register limit", "step": step})
+                mine = [r for r in after[i]["regs"] if r[0] == val.num]
+                if len(mine) != 1 or mine[0][1] != op[2] or mine[0][2] != 0 or val.num in [r[0] for r in before[i]["regs"]]:
+                    P.append({"prop": "C02", "what": "register creation did not list one new empty register of the requested capacity", "step": step})
+                if [r for r in after[i]["regs"] if r[0] != val.num] != before[i]["regs"] or after[i]["virt"] != before[i]["virt"] \
+                        or after[i]["sims"] != before[i]["sims"] or after[:i] + after[i + 1:] != before[:i] + before[i + 1:]:
+                    P.append({"prop": "C02", "what": "register creation changed something else than the register table", "step": step})
+            if status == "err":
+                if regroom:
+                    P.append({"prop": "C07", "what": "register creation refused below the register limit: %s" % type(val).__name__, "step": step})
+                elif type(val).__name__ != "quantumError":
+                    P.append({"prop": "C05", "what": "register creation at the register limit refused with %s" % type(val).__name__, "step": step})
+        if kind in ("newinreg", "newinregq"):
+            i = op[1]
+            owner, k, active, regmax = self.reg_before
+            own = owner == i
+            room = pop_before[i] < net.nodes[i].maxQubits
+            regroom = active < regmax
+            cause = "foreign" if not own else ("node_full" if not room else ("register_full" if not regroom else None))
+            self.stat("newinreg_%s" % (cause or ("ok_at_pos%d" % min(active, 3))))
+            if status == "ok" and cause is not None:
+                P.append({"prop": "C07", "what": "creation in a register succeeded although refusal cause %s applies" % cause, "step": step})
+            if status == "err" and cause is None:
+                P.append({"prop": "C07", "what": "creation in a register refused below capacity: %s" % type(val).__name__, "step": step})
+            if status == "err" and cause is not None:
+                want_exc = "quantumError" if cause == "foreign" else "noQubitError"
+                if type(val).__name__ != want_exc:
+                    P.append({"prop": "C05", "what": "creation in a register (%s) refused with %s instead of %s" % (cause, type(val).__name__, want_exc),
+                              "step": step})
+            if status == "ok" and cause is None:
+                # the new qubit sits at the end of exactly that register, nothing else moved
+                mine = [r for r in after[i]["regs"] if r[0] == k]
+                newsims = [x for x in after[i]["sims"] if x not in before[i]["sims"]]
+                if len(mine) != 1 or mine[0][2] != active + 1 or mine[0][1] != regmax or len(newsims) != 1 or newsims[0][1:] != (k, active) \
+                        or [r for r in after[i]["regs"] if r[0] != k] != [r for r in before[i]["regs"] if r[0] != k] \
+                        or after[i]["numRegs"] != before[i]["numRegs"] or after[i]["nextReg"] != before[i]["nextReg"]:
+                    P.append({"prop": "C02", "what": "creation in a register did not append exactly one qubit at the end of that register", "step": step})
         if kind == "send" and not stale and op[2] < len(net.nodes):
             t = op[2]
             room = pop_before[t] < net.nodes[t].maxQubits
@@ -309,7 +403,8 @@ class Runner:
         if getattr(self, "ideal_broken", False):
             return
         if status == "ok" and not stale:
-            if kind == "new":
+            if kind in ("new", "newinreg", "newinregq"):
+                # a qubit created inside an existing register starts in |0>, uncorrelated with everything else
                 h = new_handles[0] if new_handles else None
                 if h is not None:
                     self.oid_of[h] = self.next_oid
@@ -352,19 +447,45 @@ def random_program(env, rng, n_ops, profile="mixed", n_nodes=None, caps=None, pb
     if caps is None:
         if profile == "capacity":
             caps = [(rng.randrange(1, 6), rng.randrange(1, 9)) for _ in range(n_nodes)]
+        elif profile == "registers":
+            caps = [(rng.choice([2, 3, 4, 5, 6]), rng.choice([2, 3, 4, 6, 8])) for _ in range(n_nodes)]
         else:
             caps = [(rng.choice([3, 4, 5, 6]), rng.choice([4, 6, 8, 10])) for _ in range(n_nodes)]
     r = Runner(env, rng, n_nodes, caps, pb=pb)
-    w = {"mixed": dict(new=4, g1=4, g2=6, send=4, meas=2, stale=1, bad=1),
-         "merge": dict(new=3, g1=3, g2=8, send=6, meas=1, stale=0, bad=0),
-         "capacity": dict(new=6, g1=1, g2=2, send=5, meas=3, stale=0, bad=1),
-         "stale": dict(new=3, g1=3, g2=4, send=4, meas=3, stale=6, bad=0),
-         "refuse": dict(new=4, g1=3, g2=4, send=4, meas=1, stale=1, bad=5)}[profile]
+    # newreg / newinreg: the two client operations on registers (remote_add_register, remote_new_qubit_inreg); a modest share everywhere,
+    # and the profile "registers" with register capacities 1..3 so that the register-full refusal is frequent
+    w = {"mixed": dict(new=4, g1=4, g2=6, send=4, meas=2, stale=1, bad=1, newreg=1, newinreg=2),
+         "merge": dict(new=3, g1=3, g2=8, send=6, meas=1, stale=0, bad=0, newreg=1, newinreg=2),
+         "capacity": dict(new=6, g1=1, g2=2, send=5, meas=3, stale=0, bad=1, newreg=2, newinreg=3),
+         "stale": dict(new=3, g1=3, g2=4, send=4, meas=3, stale=6, bad=0, newreg=1, newinreg=1),
+         "refuse": dict(new=4, g1=3, g2=4, send=4, meas=1, stale=1, bad=5, newreg=2, newinreg=3),
+         "registers": dict(new=2, g1=2, g2=6, send=4, meas=3, stale=0, bad=0, newreg=4, newinreg=9)}[profile]
     kinds = [k for k, v in w.items() for _ in range(v)]
     for _ in range(n_ops):
         live = r.live()
         k = rng.choice(kinds)
         total_live = len(live)
+        if k == "newreg":
+            small = profile in ("registers", "capacity", "refuse")
+            r.do(("newreg", rng.randrange(n_nodes), rng.choice([1, 1, 2, 2, 3] if small else [1, 2, 3, 10, 0])))
+            continue
+        if k == "newinreg":
+            # a register returned by newreg, or the register of a live qubit (any register a client can get hold of);
+            # mostly at the owning node, sometimes (refused) at another one; only registers their node still lists
+            cands = [("newinreg", rh) for rh in range(len(r.reg_objs)) if r.reg_listed(r.reg_objs[rh])]
+            # (after a misbehaviour of the implementation a live qubit may sit in a register its node does not list: not driven)
+            cands = cands * 3 + [("newinregq", h) for h in live if r.can_do(("newinregq", 0, h))]
+            if not cands:
+                r.do(("newreg", rng.randrange(n_nodes), rng.choice([1, 2, 3])))
+                continue
+            if total_live >= 7 and profile not in ("capacity", "registers") and rng.random() < 0.7:
+                k = "meas"
+            else:
+                kind, ref = rng.choice(cands)
+                owner = r.reg_name(r.reg_of((kind, 0, ref)))[0]
+                node = owner if (n_nodes == 1 or rng.random() < 0.88) else rng.choice([x for x in range(n_nodes) if x != owner])
+                r.do((kind, node, ref))
+                continue
         if k == "new" or not live:
             if total_live >= 7 and profile != "capacity" and live:
                 k = "meas"
@@ -449,6 +570,10 @@ def cop(op):
         return "OGate2 %d %d %s" % (op[1], op[2], G2C[op[3]])
     if k == "send":
         return "OSend %d %d" % (op[1], op[2])
+    if k == "newreg":
+        return "ONewReg %d %d" % (op[1], op[2])
+    if k in ("newinreg", "newinregq"):
+        raise ValueError("the model arguments of %r are resolved when it runs (Runner.coq_ops)" % (op,))
     return "OMeas %d %s %s" % (op[1], common.cbool(op[2]), common.cbool(op[3]))
 
 
@@ -464,7 +589,7 @@ def cdump(d):
 
 def ccase(r):
     caps = "[" + ";".join("(%d,%d)" % c for c in r.caps) + "]"
-    steps = "[" + ";\n   ".join("(%s, %s, %s)" % (cop(o), out, cdump(d)) for (o, out, d) in r.steps) + "]"
+    steps = "[" + ";\n   ".join("(%s, %s, %s)" % (r.coq_ops.get(i) or cop(o), out, cdump(d)) for i, (o, out, d) in enumerate(r.steps)) + "]"
     return "(%s,\n  %s)" % (caps, steps)
 
 
@@ -502,30 +627,43 @@ def correspond(ctx, runners, name, shard=40):
 
 def program_of(r, upto=None):
     steps = r.steps if upto is None else r.steps[:upto + 1]
-    return {"caps": r.caps, "ops": [list(s[0]) for s in steps], "impl_outs": [s[1] for s in steps]}
+    return {"caps": r.caps, "ops": [list(s[0]) for s in steps], "impl_outs": [s[1] for s in steps],
+            "model_ops": {str(i): t for i, t in r.coq_ops.items() if i < len(steps)}}
 
 
 # ------------------------------------------------------------------------------------------------
 # symbolic programs (handles named by the index of the operation that created them), replay and shrinking
 # ------------------------------------------------------------------------------------------------
-HANDLE_FIELDS = {"g1": [1], "g2": [1, 2], "send": [1], "meas": [1], "new": []}
+HANDLE_FIELDS = {"g1": [1], "g2": [1, 2], "send": [1], "meas": [1], "new": [], "newreg": [], "newinreg": [], "newinregq": [2]}
+# register handles (index into Runner.reg_objs: one per successful newreg, in operation order) are named the same way
+REG_FIELDS = {"newinreg": [2]}
+
+
+def ref_fields(kind):
+    """fields of a symbolic operation that name the operation which created a qubit handle / a register handle"""
+    return HANDLE_FIELDS[kind] + REG_FIELDS.get(kind, [])
 
 
 def symbolic(r, upto=None):
     """ops of a finished run with every handle id replaced by the index of its creating op"""
     steps = r.steps if upto is None else r.steps[:upto + 1]
     creator = {}
-    # handle ids are allocated in op order, one per successful new/send
+    rcreator = {}
+    # handle ids are allocated in op order, one per successful new/send/newinreg; register handles one per successful newreg
     nxt = 0
     for i, (op, out, _) in enumerate(steps):
-        if op[0] in ("new", "send") and out.startswith("Ok"):
+        if op[0] in ("new", "send", "newinreg", "newinregq") and out.startswith("Ok"):
             creator[nxt] = i
             nxt += 1
+        if op[0] == "newreg" and out.startswith("Ok"):
+            rcreator[len(rcreator)] = i
     sym = []
     for op, out, _ in steps:
         o = list(op)
         for f in HANDLE_FIELDS[op[0]]:
             o[f] = creator.get(op[f], -1)
+        for f in REG_FIELDS.get(op[0], []):
+            o[f] = rcreator.get(op[f], -1)
         sym.append(tuple(o))
     return sym
 
@@ -535,6 +673,7 @@ def replay(env, caps, sym, rng=None, pb=False):
     import random as _r
     r = Runner(env, rng or _r.Random(0), len(caps), caps, pb=pb)
     made = {}
+    made_regs = {}
     for i, op in enumerate(sym):
         o = list(op)
         ok = True
@@ -543,14 +682,24 @@ def replay(env, caps, sym, rng=None, pb=False):
                 ok = False
             else:
                 o[f] = made[op[f]]
+        for f in REG_FIELDS.get(op[0], []):
+            if op[f] not in made_regs:
+                ok = False
+            else:
+                o[f] = made_regs[op[f]]
         if not ok:
             continue
-        if o[0] == "new" and o[1] >= len(caps):
+        if o[0] in ("new", "newreg", "newinreg", "newinregq") and o[1] >= len(caps):
             continue
+        if not r.can_do(tuple(o)):
+            continue            # the register object is no longer listed by its node in this (shrunk) history
         before = r.net.next_hid
+        nregs = len(r.reg_objs)
         out = r.do(tuple(o))
         if r.net.next_hid > before:
             made[i] = before
+        if len(r.reg_objs) > nregs:
+            made_regs[i] = nregs
     return r
 
 
@@ -563,10 +712,10 @@ def shrink(env, caps, sym, pred, budget=150, pb=False):
         for i in reversed(range(len(cur))):
             if budget <= 0:
                 break
-            cand = cur[:i] + [tuple((x - 1 if (k in HANDLE_FIELDS[o[0]] and isinstance(x, int) and x > i) else x)
+            cand = cur[:i] + [tuple((x - 1 if (k in ref_fields(o[0]) and isinstance(x, int) and x > i) else x)
                                     for k, x in enumerate(o))
                               for o in cur[i + 1:]
-                              if not any(o[f] == i for f in HANDLE_FIELDS[o[0]])]
+                              if not any(o[f] == i for f in ref_fields(o[0]))]
             budget -= 1
             try:
                 r = replay(env, caps, cand, pb=pb)
